@@ -53,7 +53,8 @@ def bounds(tier, seed):
         return {'max_records': 3, 'baselines': [0, 1], 'fasta_widths': [1, 2, 3, 4], 'hist_len': 2,
                 'domain_cap_for_N3': 5, 'seed_slice': seed % 3}
     return {'max_records': 4, 'baselines': [0, 1, 2], 'fasta_widths': list(range(1, 9)), 'hist_len': 3,
-            'domain_cap_for_N3': None, 'seed_slice': None}
+            'domain_cap_for_N3': None, 'seed_slice': None,
+            'four_record_files': 'the swept column takes every 4-tuple over 4 values of its domain (first, second, middle, last)'}
 
 
 def shards(tier, seed):
@@ -246,6 +247,8 @@ def run_sweep(desc, deadline, res):
             k = b['domain_cap_for_N3']
             s = (b['seed_slice'] * 2) % len(dom)
             d = [dom[(s + j) % len(dom)] for j in range(k)]
+        if n >= 4 and len(d) > 4:
+            d = [d[j] for j in sorted({0, 1, len(d) // 2, len(d) - 1})]
         for tup in itertools.product(d, repeat=n):
             if deadline.expired():
                 res.capped = True
